@@ -391,6 +391,7 @@ func (x *Exec) regOrArbitrary(st *State, v ssa.Value) Val {
 
 // localVar: the current contents of the local variable `name` of the root function (an Alloc).
 func (x *Exec) localVar(st *State, name string) (Val, types.Type, bool) {
+	name = x.w.currentLocalName(x.fn, name) // a renamed local keeps its recorded name as an alias
 	for _, b := range x.fn.Blocks {
 		for _, ins := range b.Instrs {
 			a, ok := ins.(*ssa.Alloc)
